@@ -4,10 +4,11 @@ PROPS["C12"] = dict(
     harnesses=[dict(cmd="resolver", mod="root", model="Model.Resolver", quick=110, thorough=6000, shard=37, coq_jobs=12, race=120,
                     require=["op.start", "op.step", "op.step.fail", "op.done", "op.close", "op.release.again", "op.expl", "op.expb",
                              "op.use.held", "op.refresh.ok", "op.refresh.err", "op.refresh.size", "op.probe.held", "op.wake", "pause.1", "pause.3", "pause.4", "result.blocked", "result.err",
-                             "result.ret.fresh", "result.ret.shared", "result.use.closed", "result.use.released-open"]),
+                             "result.ret.fresh", "result.ret.shared", "result.use.closed", "result.use.released-open", "interval", "iop.age", "iop.chk", "iop.refresh", "iop.res"]),
                dict(cmd="fsmount", mod="root", model="Model.FsMount", quick=60, thorough=3000, shard=30, coq_jobs=12, race=150,
                     require=["op.mount", "op.check.mounted", "op.check.refresh.ok", "op.check.refresh.err", "op.check.refresh.size", "op.probe.mounted", "op.unmount", "op.unmount.unknown", "op.use.mounted",
-                             "op.expl", "op.expb", "result.mount.ok", "result.mount.err", "result.check.err"])],
+                             "op.expl", "op.expb", "result.mount.ok", "result.mount.err", "result.check.err",
+                             "result.mount.refused.mismatch", "result.mount.refused.bad", "result.mount.refused.none"])],
     rule="random interleavings of Resolve (suspended inside each external call: connectivity check, registry, metadata store; outcome "
          "chosen per call) / Done / Close / layer-TTL expiry / blob-TTL expiry / Check+RootNode+reads served from the caches / Refresh with the registry answering {same blob, resolution error, blob of another size, same size other bytes} / reads of never-read chunks (which must go to the registry) over 3 layer names, each followed "
          "by a closing sequence (finish, release all, expire all, re-resolve, close); non-trivial = a shared and >= 2 fresh instances plus a failed "
@@ -22,6 +23,8 @@ PROPS["C12"] = dict(
         "time.AfterFunc timers: the timer body is the ExpireL/ExpireB op, fired at arbitrary points by the hooks VerifExpireLayerC12/VerifExpireBlobC12",
         "os.MkdirTemp returns a fresh directory and os.RemoveAll removes it; directory creation does not fail (not injectable)",
         "external calls (fetcher.check, remote.Handler, metadata store) may fail at will: their outcome is an argument of the sub-step, universally quantified",
+        "ValidInterval of the connectivity check is not in the Coq model (it models CheckAlways); the resolver harness runs extra sequential cases with a one-hour "
+        "interval and time moved by a verif hook, judged by the model-free oracle only (a Check probes exactly when due, a failed probe does not count as a check)",
         "fs.Mount: the FUSE server (after registration) and the 30 s wait for the target's Resolve are outside the model; prefetch and background fetch are "
         "switched off; Mount over an already registered mountpoint (never done by the snapshotter) is not generated",
     ],
